@@ -60,6 +60,12 @@ class VGen(iogen.Gen):
             # JSON-representable: finite floats, integers that a float64 holds exactly
             if k in ("float64", "float32"):
                 f = r.choice([0.0, 1.5, -2.25, 100.0, 3.125, 1e10, -0.5, float(r.randint(-1000, 1000))])
+                if k == "float64" and r.random() < 0.5:
+                    # every finite float64 has a shortest JSON text that parses back to itself: values that need
+                    # many digits, tiny and huge magnitudes (a codec configured to cut digits shows here)
+                    f = r.choice([3.141592653589793, 1.0000001, 1e-7, 0.1, 1.0 / 3.0, -2.718281828459045,
+                                  2.2250738585072014e-308, 1.7976931348623157e308, 5e-324, 123456.7890123,
+                                  r.uniform(-1, 1), r.uniform(-1e6, 1e6), r.random() * 10.0 ** r.randint(-12, 12)])
                 return iogen.f64bits(f) if k == "float64" else iogen.f32bits(f)
             if k in iogen.INTS:
                 lo, hi = iogen.RANGE[k]
